@@ -112,8 +112,11 @@ def run(prop, tier):
     # a host whose long is 32 bits wide (LLP64 data model)
     from . import llp64
     bdir = os.path.join(core.ROOT, 'build', prop)
-    exel = llp64.build(bdir, os.path.join(bdir, 'gen'), core.build_native(os.path.join(bdir, 'native'), os.path.join(bdir, 'gen'), ['common.c', 'explore_ser.c']), 'explore_ser')
-    res = core.run_slices(exel, ['--suite', prop, '--tier', tier if prop in ('C06', 'C09', 'C10') else 'quick' if tier == 'thorough' else 'lite'], timeout=1500 if tier == 'thorough' else 600, result=res, tag='llp64 (32-bit long)')
+    try:
+        exel = llp64.build(bdir, os.path.join(bdir, 'gen'), core.build_native(os.path.join(bdir, 'native'), os.path.join(bdir, 'gen'), ['common.c', 'explore_ser.c']), 'explore_ser')
+        res = core.run_slices(exel, ['--suite', prop, '--tier', tier if prop in ('C06', 'C09', 'C10') else 'quick' if tier == 'thorough' else 'lite'], timeout=1500 if tier == 'thorough' else 600, result=res, tag='llp64 (32-bit long)')
+    except core.WorldUnavailable as e:
+        res.incomplete.append('world left out: ' + str(e))
     if prop == 'C09':
         # the message need not start at a multiple of four (it follows a 14-byte Ethernet header in a frame buffer)
         for off in (1, 2, 3):
@@ -121,13 +124,16 @@ def run(prop, tier):
         vss_talker_finalisation(res, os.path.join(core.ROOT, 'build', prop), 8 if tier == 'quick' else 300)
     # an ILP32 host: pointers, size_t and long 32 bits wide, 64-bit integers aligned to four bytes, x87 arithmetic
     from . import ilp32
-    exei = ilp32.build(bdir, os.path.join(bdir, 'gen'), ['common.c', 'explore_ser.c'], 'explore_ser', world_srcs=('wrap_generic.c', 'wrap_ser.c', 'wrap_bo.c'), with_bo=True)
-    res = core.run_slices(exei, ['--suite', prop, '--tier', 'quick' if prop == 'C13' else tier], timeout=1500 if tier == 'thorough' else 600, result=res, tag='ilp32 (gcc -m32, freestanding)')
+    try:
+        exei = ilp32.build(bdir, os.path.join(bdir, 'gen'), ['common.c', 'explore_ser.c'], 'explore_ser', world_srcs=('wrap_generic.c', 'wrap_ser.c', 'wrap_bo.c'), with_bo=True)
+        res = core.run_slices(exei, ['--suite', prop, '--tier', 'quick' if prop == 'C13' else tier], timeout=1500 if tier == 'thorough' else 600, result=res, tag='ilp32 (gcc -m32, freestanding)')
+    except core.WorldUnavailable as e:
+        res.incomplete.append('world left out: ' + str(e))
     if prop == 'C13':
         # the helpers on a host that really stores the most significant byte first (the emulated big-endian world of C14):
         # a swap written in terms of the object's bytes is only a swap on one of the two kinds of host
         from . import c14
-        objs = c14.be_objects(os.path.join(bdir, 'world-be-O1'), os.path.join(bdir, 'gen'), '-O1')
+        objs = c14.be_objects(os.path.join(bdir, 'world-be-O1'), os.path.join(bdir, 'gen'), '-O1')      # (hard: the mirror clause needs this world)
         exeb = core.link(os.path.join(bdir, 'explore_ser-be'), core.build_native(os.path.join(bdir, 'native'), os.path.join(bdir, 'gen'), ['common.c', 'explore_ser.c']) + objs, cc='clang')
         if subprocess.run([exeb, '--worldinfo'], stdout=subprocess.PIPE, text=True).stdout.strip().split()[-1] != 'big=1':
             core.die_infra('the emulated big-endian world does not report big-endian storage')
